@@ -105,6 +105,9 @@ impl PubSocketBackend {
 //@ item src/pub.rs :: impl PubSocketBackend / fn message_received
 //@ name PubSocketBackend::message_received
 //@ receiver-mut
+// the multiset lemmas in reach cover Vec::push and Vec::remove(index); another way of updating the list is undecided
+//@ shapes "subscriptions.push("
+//@ shapes "subscriptions.remove(index)"
 //@ subst-re "(\w+)\.subscriptions\.iter\(\)\.position\(\|s\| s == &sub\)"
 //@|    assumed_position(&\1.subscriptions, &sub)
 //@ spec
@@ -122,21 +125,7 @@ impl PubSocketBackend {
 //@|                cancelled(topics(old(self).subscribers@[*peer_id]), topics(final(self).subscribers@[*peer_id]), sub_frame(message)->Some_0.subrange(1, sub_frame(message)->Some_0.len() as int)),
 //@ hint start
 //@|        broadcast use lemma_map_remove, lemma_map_push;
-//@ hint before "entry.subscriptions.push("
-//@|                    let ghost tp0 = topics_of(entry.subscriptions@);
-//@ hint after "entry.subscriptions.push(Vec::from(&data[1..]));"
-//@|                    proof {
-//@|                        assert(topics_of(entry.subscriptions@) =~= tp0.push(topics_of(entry.subscriptions@).last()));
-//@|                        lemma_topics_push(tp0, topics_of(entry.subscriptions@).last());
-//@|                    }
-//@ hint before "if let Some(index) ="
-//@|                    proof {
-//@|                        if forall|j: int| 0 <= j < entry.subscriptions@.len() ==> topics_of(entry.subscriptions@)[j] != sub@ {
-//@|                            lemma_topics_absent(topics_of(entry.subscriptions@), sub@);
-//@|                        }
-//@|                    }
-//@ hint before "entry.subscriptions.remove(index);"
-//@|                        proof { lemma_topics_remove(topics_of(entry.subscriptions@), index as int); }
+//@|        broadcast use vstd::seq_lib::group_to_multiset_ensures;
 //@ end
 }
 
@@ -164,27 +153,16 @@ impl XPubSocketBackend {
 //@ item src/xpub.rs :: impl XPubSocketBackend / fn message_received
 //@ name XPubSocketBackend::message_received
 //@ receiver-mut
+// the multiset lemmas in reach cover Vec::push and Vec::remove(index); another way of updating the list is undecided
+//@ shapes "subscriptions.push("
+//@ shapes "subscriptions.remove(index)"
 //@ subst-re "(\w+)\.subscriptions\.iter\(\)\.position\(\|s\| s == &sub\)"
 //@|    assumed_position(&\1.subscriptions, &sub)
 //@ spec
 //@|        ensures xsub_applied(old(self).subscribers@, final(self).subscribers@, *peer_id, message),
 //@ hint start
 //@|        broadcast use lemma_map_remove, lemma_map_push;
-//@ hint before "entry.subscriptions.push("
-//@|                    let ghost tp0 = topics_of(entry.subscriptions@);
-//@ hint after "entry.subscriptions.push(Vec::from(&data[1..]));"
-//@|                    proof {
-//@|                        assert(topics_of(entry.subscriptions@) =~= tp0.push(topics_of(entry.subscriptions@).last()));
-//@|                        lemma_topics_push(tp0, topics_of(entry.subscriptions@).last());
-//@|                    }
-//@ hint before "if let Some(index) ="
-//@|                    proof {
-//@|                        if forall|j: int| 0 <= j < entry.subscriptions@.len() ==> topics_of(entry.subscriptions@)[j] != sub@ {
-//@|                            lemma_topics_absent(topics_of(entry.subscriptions@), sub@);
-//@|                        }
-//@|                    }
-//@ hint before "entry.subscriptions.remove(index);"
-//@|                        proof { lemma_topics_remove(topics_of(entry.subscriptions@), index as int); }
+//@|        broadcast use vstd::seq_lib::group_to_multiset_ensures;
 //@ end
 }
 
